@@ -10,9 +10,9 @@ CHECKS["C11"] = {
     "title": "reference area, volumes, compactness, envelope membership, classifiers",
     "outside": [],
     "harnesses": [
-        {"name": "c11::classify_tilt", "witness": True, "bound": "every f32 in [-720,1080]; guard band 1e-3 deg at sector boundaries",
+        {"name": "c11::classify_tilt", "witness": True, "bound": "every f32 in [-720,1080]; within 1e-3 deg of a sector boundary either neighbouring class is accepted, except at the (exactly representable) boundary value itself",
          "functions": ["bemodel::Tilt::from(f32)", "bemodel::utils::normalize"]},
-        {"name": "c11::classify_orientation", "witness": True, "bound": "every f32 in [-720,1080]; guard band 1e-3 deg at sector boundaries",
+        {"name": "c11::classify_orientation", "witness": True, "bound": "every f32 in [-720,1080]; within 1e-3 deg of a sector boundary either neighbouring class is accepted, except at the (exactly representable) boundary value itself",
          "functions": ["bemodel::Orientation::from(f32)", "bemodel::utils::normalize"]},
         {"name": "c11::tilt_parser_vs_model", "witness": True, "bound": "every f32 in [0,360]",
          "functions": ["hulc::bdl::Wall::position", "bemodel::Tilt::from(f32)"]},
@@ -166,7 +166,7 @@ C06S = FMT + ROUND
 
 CHECKS["C06"] = {
     "title": "opaque U-values follow EN ISO 6946, 13370 and 13789",
-    "outside": ["ground-contact numeric kernels, sum(Ae*Ue) bookkeeping and the basement-wall dispatch are in the thorough tier only (10-27 min each); the slab-on-ground dispatch through Wall::u_value (u_ground_slab) did not finish in 45 min and is not registered: that the slab kernel receives the right d_t, B' and psi is NOT decided",
+    "outside": ["thorough tier only: slab kernel, sum(Ae*Ue) bookkeeping, basement-wall dispatch (10-27 min each); the basement-wall kernel and the d_t/psi harness (u_gnd_wall_kernel, u_gnd_dt_psi) gave no verdict in 45 min and are not registered; the slab-on-ground dispatch through Wall::u_value (u_ground_slab) did not finish in 45 min and is not registered: that the slab kernel receives the right d_t, B' and psi is NOT decided",
                 "numeric value of ln (uninterpreted)", "tolerance statements for arbitrary reals: the mirror oracle pins formula, constants, branch structure and operand order, not conditioning",
                 "stacks deeper than 3 layers", "unconditioned spaces with more than 2 bounding exterior elements", "U of partitions between equally conditioned spaces with a neighbour (the statement does not define it): only 'has a value' is asserted"],
     "harnesses": [
@@ -174,8 +174,8 @@ CHECKS["C06"] = {
         {"name": "c06::u_exterior_kernel", "bound": "tilt in {0,60,90,120,180,300}, R in {k/8, k<=63} or None", "kani_args": NOOVF, "cbmc_args": FS, "stubs": C06S, "functions": ["Wall::u_value_exterior", "Tilt::from", "fround2"]},
         {"name": "c06::u_interior_kernel", "bound": "Ai in {(k+1)/2}, Rf in {k/4}, UA in {k/2}, q in {2k}, k<=15", "kani_args": NOOVF, "cbmc_args": FS, "stubs": C06S, "functions": ["Wall::u_value_interior_cond_uncond"]},
         {"name": "c06::u_gnd_slab_kernel", "tier": "thorough", "timeout_thorough": 2700, "bound": "z in {k/2,k<=7}, d_t in {(k+1)/4}, B' in {(k+1)/2}, k<=15, psi in {-k/8,k<=7}", "kani_args": NOOVF, "cbmc_args": FS, "stubs": C06S + LN, "functions": ["Wall::u_value_gnd_slab"]},
-        {"name": "c06::u_gnd_wall_kernel", "tier": "thorough", "timeout_thorough": 2700, "bound": "z in {k/2,k<=7}, U_w, d_t in {(k+1)/4,k<=15}, h in {(k+1)/2,k<=7}", "kani_args": NOOVF, "cbmc_args": FS, "stubs": C06S + LN, "functions": ["Wall::u_value_gnd_wall"]},
-        {"name": "c06::u_gnd_dt_psi", "tier": "thorough", "timeout_thorough": 2700, "bound": "1 ground slab of side 1..4 (+2 decoy floors), slab resistance in {k/4,k<=15}, construction present/absent, Rn in {k/2,k<=7}, D in {k/4,k<=7}, d_t in {(k+1)/4}", "kani_args": NOOVF, "cbmc_args": FS, "stubs": C06S + LN, "functions": ["Space::slab_d_t", "Space::slab_psi_gnd_ext"]},
+        {"name": "c06::u_gnd_wall_kernel", "tier": "off", "bound": "z in {k/2,k<=7}, U_w, d_t in {(k+1)/4,k<=15}, h in {(k+1)/2,k<=7}", "kani_args": NOOVF, "cbmc_args": FS, "stubs": C06S + LN, "functions": ["Wall::u_value_gnd_wall"]},
+        {"name": "c06::u_gnd_dt_psi", "tier": "off", "bound": "1 ground slab of side 1..4 (+2 decoy floors), slab resistance in {k/4,k<=15}, construction present/absent, Rn in {k/2,k<=7}, D in {k/4,k<=7}, d_t in {(k+1)/4}", "kani_args": NOOVF, "cbmc_args": FS, "stubs": C06S + LN, "functions": ["Space::slab_d_t", "Space::slab_psi_gnd_ext"]},
         {"name": "c06::dispatch::u_dispatch_air", "bound": "concrete construction (R=1.75); symbolic: 4 boundary kinds x tilt {0,90,180} x construction/material present x lambda > 0", "kani_args": NOOVF, "cbmc_args": FS2K, "stubs": C06S, "functions": ["Wall::u_value", "WallCons::resistance", "Wall::u_value_exterior"]},
         {"name": "c06::dispatch::u_dispatch_partition", "timeout_quick": 1200, "bound": "concrete geometry; symbolic: 3x3 space kinds, tilt {0,90,180}, neighbour none/valid/dangling, per-space n_v present or not, building ventilation present or not", "kani_args": NOOVF, "cbmc_args": FS2K, "stubs": C06S, "timeout_quick": 1500,
          "functions": ["Wall::u_value", "Space::ua_of_external_and_ground_surfaces", "Model::global_ventilation_rate", "Space::area", "Space::height_net", "Wall::u_value_interior_cond_uncond"]},
@@ -238,10 +238,10 @@ UNREGISTERED["C12"] = {
     "title": "obstruction factors: sunlit fraction of horizontal scenes (partial)",
     "outside": ["the obstruction factor itself (irradiance weighting over the 14 July design hours, >= 0.97 for unobstructed windows)", "every non-horizontal geometry (rotation matrices need sin/cos)", "sample grids of 25..100 origins (2 origins here)", "reveal shades generated from setback (ids are md5 of formatted text)"],
     "harnesses": [
-        {"name": "c12::sunlit_fraction_missing", "bound": "wall present or not, position present or not, sun in front or behind, no obstacles, 1 ray origin", "kani_args": NOOVF, "cbmc_args": FS, "stubs": FMT, "timeout_quick": 900,
+        {"name": "c12::sunlit_fraction_missing", "bound": "wall present or not, position present or not, sun in front or behind, no obstacles, 1 ray origin", "kani_args": NOOVF, "cbmc_args": FS2K, "stubs": FMT, "timeout_quick": 5400,
          "functions": ["Model::sunlit_fraction", "BVH::build", "WallGeom::normal"]},
         {"name": "c12::sunlit_fraction_horizontal", "bound": "horizontal wall (tilt 0, azimuth 0) with one window, 2 horizontal obstacles 2x2 at integer positions in [-2,3]^2 x {1,2,3} (free / carrying the wall's id / linked to another window / linked to this window), 2 ray origins, sun direction in {-1,0,1}^3 minus 0",
-         "kani_args": NOOVF, "cbmc_args": FS, "stubs": FMT, "timeout_quick": 900, "mem_gb": 40, "functions": ["Model::sunlit_fraction", "BVH::build", "BVH::intersects", "<&Occluder as Intersectable>::intersects", "Ray::intersects_with_data", "WallGeom::normal"]},
+         "kani_args": NOOVF, "cbmc_args": FS2K, "stubs": FMT, "timeout_quick": 5400, "mem_gb": 40, "functions": ["Model::sunlit_fraction", "BVH::build", "BVH::intersects", "<&Occluder as Intersectable>::intersects", "Ray::intersects_with_data", "WallGeom::normal"]},
     ],
 }
 
